@@ -214,6 +214,10 @@ def drive_c01(ctx):
     class_failure_pairs(ctx, ['C01'], decode_side=False)
     if ctx.shard == 1:
         under_legacy(ctx, ['C01'], frames='methods')
+    if ctx.shard == 2:
+        marshal_failure_then(ctx, ['C01'], kinds='methods')
+    if ctx.shard == 3:
+        reentrant_callbacks(ctx, ['C01'], kinds='methods')
     from pamqp import base as _base
     for f in small_frames(ctx):
         if isinstance(f, _base.Frame):
@@ -248,6 +252,16 @@ def drive_c02(ctx):
     rec, rng = ctx.rec, ctx.rng
     if ctx.shard == 2:
         under_legacy(ctx, ['C02'], frames='headers')
+    if ctx.shard == 3:
+        marshal_failure_then(ctx, ['C02'], kinds='headers')
+    if ctx.shard == 4:
+        reentrant_callbacks(ctx, ['C02'], kinds='headers')
+    if ctx.shard == 5:
+        from pamqp import commands as _c02
+        for w_, sz_ in ((0, 0), (0, 1), (1, 0), (65535, 2 ** 64 - 1), (0, 2 ** 63), (7, 255)):
+            for pr_ in (_c02.Basic.Properties(), _c02.Basic.Properties(priority=0, content_type='', headers={}),
+                        _c02.Basic.Properties(delivery_mode=1, app_id='a', timestamp=gen.rand_datetime_in_range(rng))):
+                rec.add('BuildFrame', ['C02'], nt=True, **actions.build_frame('ContentHeader', w_, sz_, pr_))
     reps = 1 if ctx.quick else 8
     for rep in range(reps):
         for subset in range(8192):
@@ -286,6 +300,14 @@ def drive_c18(ctx):
     for f in small_frames(ctx):
         if not isinstance(f, _base.Frame) and type(f).__name__ != 'ContentHeader':
             rec.add('RoundTrip', P, nt=True, **actions.roundtrip(f, rng.choice([0, 1, 65535])))
+    if ctx.shard == 1:
+        for triple in ((0, 9, 0), (1, 0, 0), (0, 0, 1), (0, 0, 0), (0, 9, 1), (255, 0, 255), (0, 255, 0), (9, 0, 9), (1, 1, 0), (0, 10, 0)):
+            rec.add('BuildFrame', P, nt=True, **actions.build_frame('ProtocolHeader', *triple))
+            rec.add('RoundTrip', P, nt=True, label='zero octets', **actions.roundtrip(header.ProtocolHeader(*triple), 0))
+        for raw in (b'\x00', b'', b'0', b'\xce', b'abc', bytes(range(256))):
+            if raw:
+                rec.add('BuildFrame', P, nt=True, **actions.build_frame('ContentBody', raw))
+        marshal_failure_then(ctx, P, kinds='other')
     lens = list(range(1, 65)) + [4088, 4089, 4095, 4096, 4097, 4104, 65535, 65536]
     if not ctx.quick:
         lens += [131064, 131071, 131072] + [rng.randint(65, 20000) for _ in range(40)]
@@ -382,6 +404,8 @@ def drive_c04(ctx):
     if ctx.shard == 7:
         marshal_failure_then(ctx, P)
         decode_mutate_encode(ctx, P)
+    if ctx.shard == 12:
+        reentrant_callbacks(ctx, P)
     if ctx.shard == 8:
         from pamqp import body as _b04
         for n_ in (131063, 131064, 131065, 131072, 200000):       # whatever its size, one ContentBody is ONE frame
@@ -627,6 +651,16 @@ def drive_c17(ctx):
         if exceptions.CLASS_MAPPING.get(code) is not None:
             get_ok.append(code)
     rec.add('UndefinedCodes', P, nt=True, subscript_ok=sub_ok, contains=cont, get_ok=get_ok, other_exc=other)
+    # keys that are not integers (a code read from text, a Decimal, bytes, a float, None): whatever the answer, the table
+    # read afterwards is still the specification's
+    import decimal as _d17
+    for code in (404, 320, 504, 200, 311, 541):
+        for k_ in (str(code), ' %d ' % code, str(code).encode(), _d17.Decimal(code), float(code), code + 0.5, [code], (code,), None, True):
+            for look in (lambda m, k: m[k], lambda m, k: m.get(k), lambda m, k: k in m):
+                try:
+                    look(exceptions.CLASS_MAPPING, k_)
+                except Exception:  # noqa
+                    pass
     # ordinary application use of an exception hierarchy: subclasses of the reply-code classes (plain, with a second
     # base, with their own value) are defined; the catalogue must still map every code to the specification's class
     for _k, _c in list(exceptions.CLASS_MAPPING.items()):
@@ -891,6 +925,16 @@ def drive_c19(ctx):
             g = actions.unmarshal3(frame.marshal(framegen.rand_header(rng), 1))[2]
             rec.add('Observe', P, nt=True, stage='decoded', **actions.observe(g.properties))
             rec.add('Observe', P, nt=True, stage='default', **actions.observe(commands.Basic.Properties()))
+            # values a "helpful" accessor might normalise: sub-second and aware timestamps, struct_time, strings with a
+            # signature mark or surrounding blanks, non-minimal containers
+            import datetime as _dt19
+            import time as _t19
+            for ts_ in (_dt19.datetime(2019, 12, 19, 23, 29, 0, 250000), _dt19.datetime(2019, 12, 19, 23, 29, 0, 1, tzinfo=_dt19.timezone.utc),
+                        _dt19.datetime(2020, 1, 1, tzinfo=_dt19.timezone(_dt19.timedelta(hours=5, minutes=30))), _t19.gmtime(86400)):
+                rec.add('Observe', P, nt=True, stage='exotic-values', **actions.observe(commands.Basic.Properties(
+                    timestamp=ts_, content_type='\ufefftype ', headers={'when': ts_, ' k ': [ts_], 'n': {}}, app_id='')))
+            rec.add('Observe', P, nt=True, stage='exotic-values', **actions.observe(
+                commands.Queue.Declare(queue='', arguments={'\ufeffk': ' v ', 't': _dt19.datetime(2019, 12, 19, 23, 29, 0, 999999)})))
 
 
 # ---------------------------------------------------------------------------
@@ -909,7 +953,7 @@ def c13_values(rng, cls, arg, ty):
         return [fx, '', 'x', '0', '00', ' ', None]
     if key in framegen.EXCH or key in framegen.QUEUE:
         lim = 127 if key in framegen.EXCH else 256
-        vals = ['', 'a', 'Z' * (lim - 1), 'q' * lim, 'q' * (lim + 1), NC, 'amq.direct', 'a b', 'a/b,c#d@e:f.g_h-i',
+        vals = ['', 'a', 'Z' * (lim - 1), 'q' * lim, 'q' * (lim + 1), NC, 'amq.direct', 'amq.gen-JzTY20BRgKO-HjmUJj0wLg', 'amq.', 'AMQ.x', 'amq.rabbitmq.reply-to', 'a b', 'a/b,c#d@e:f.g_h-i',
                 'a\n', '\n', 'a\nb', 'é', 'a!b', 'tab\t', 'a\x00', 'a*', 'x' * 126 + '\n', None,
                 ''.join(rng.choice(NC) for _ in range(rng.randint(0, lim))), 'Ω', 'a\\b', 'a"b', "a'b", 'a[b]', 'a^b', 'a`b', 'a~']
         return vals
@@ -1588,6 +1632,8 @@ def drive_c12(ctx):
     if ctx.shard == 7:
         decode_mutate_encode(ctx, P)
         marshal_failure_then(ctx, P)
+    if ctx.shard == 8:
+        reentrant_callbacks(ctx, P)
 
 
 # ---------------------------------------------------------------------------
@@ -1733,6 +1779,8 @@ def drive_c16(ctx):
     if ctx.shard == 5:
         decode_mutate_encode(ctx, ['C16'])
         marshal_failure_then(ctx, ['C16'])
+    if ctx.shard == 6:
+        reentrant_callbacks(ctx, ['C16'])
     if ctx.shard == 1:
         ambient_decimal_context(ctx, ['C16'])
     scheds = ctx.gen.get('schedules')
@@ -2507,7 +2555,7 @@ def decode_mutate_encode(ctx, props, values=True):
             rec.add('EncodeValue', props, nt=True, label='decoded-then-changed', **actions.encode_value([w], 'array'))
 
 
-def marshal_failure_then(ctx, props, action='RoundTrip'):
+def marshal_failure_then(ctx, props, action='RoundTrip', kinds='all'):
     """a marshal call that is REFUSED (each kind of frame, each kind of refusal, raised at different depths of the encoder)
     immediately followed by valid frames of every kind: whatever the refused call left behind (a scratch buffer, a
     half-filled memo, a counter) shows in the frames that follow"""
@@ -2533,6 +2581,13 @@ def marshal_failure_then(ctx, props, action='RoundTrip'):
                      commands.Exchange.Bind(destination='d', source='s', routing_key='k', nowait=True, arguments={'z': 1}),
                      header.ContentHeader(0, 10, commands.Basic.Properties(content_type='t', priority=3)), body.ContentBody(b'payload\xce'),
                      heartbeat.Heartbeat(), commands.Queue.Declare(queue='q2', durable=True, arguments={'x': 2})]
+        if kinds == 'methods':
+            followers = [f for f in followers if hasattr(f, 'synchronous')]
+        elif kinds == 'headers':
+            followers = [f for f in followers if isinstance(f, header.ContentHeader)] + [
+                header.ContentHeader(0, 1, commands.Basic.Properties(app_id='app', message_id='m1', delivery_mode=2))]
+        elif kinds == 'other':
+            followers = [f for f in followers if not hasattr(f, 'synchronous') and not isinstance(f, header.ContentHeader)]
         for fr in followers:
             if action == 'Peek':
                 ev = actions.peek(fr, 7, b'')
@@ -2540,6 +2595,75 @@ def marshal_failure_then(ctx, props, action='RoundTrip'):
                     rec.add('Peek', props, nt=True, label='after-refused-marshal', **ev)
             else:
                 rec.add('RoundTrip', props, nt=True, label='after-refused-marshal', **actions.roundtrip(fr, 7))
+
+
+def reentrant_callbacks(ctx, props, kinds='all'):
+    """a value the caller passed in calls BACK into the library while it is being encoded (the utcoffset() of a tzinfo is
+    consulted in the middle of a table): the inner call marshals / encodes / decodes something else and returns. Both the
+    outer and the inner result must be what they are without the nesting (scratch buffers, shared work lists, module-level
+    'current frame' objects show here, in one thread and deterministically)"""
+    import datetime as dtm
+    from pamqp import body, commands, encode as _enc, frame, header
+    rec = ctx.rec
+    captured = []
+
+    class CallsBack(dtm.tzinfo):
+        def __init__(self, inner):
+            self.inner = inner
+
+        def utcoffset(self, d):
+            try:
+                captured.append(self.inner())
+            except Exception as e_:  # noqa
+                captured.append(e_)
+            return dtm.timedelta(hours=2)
+
+        def dst(self, d):
+            return dtm.timedelta(0)
+
+        def tzname(self, d):
+            return 'CB'
+
+        def __deepcopy__(self, memo):
+            return self
+
+    inner_frames = [commands.Queue.Declare(queue='audit', durable=True, arguments={'inner': 1}),
+                    commands.Basic.Publish(exchange='inner-ex', routing_key='inner-rk', mandatory=True),
+                    header.ContentHeader(0, 7, commands.Basic.Properties(content_type='inner/type', priority=7, headers={'in': 'ner'})),
+                    body.ContentBody(b'inner-body')]
+    inners = [(lambda f_=f_: frame.marshal(f_, 9), f_) for f_ in inner_frames]
+    inners.append((lambda: _enc.field_table({'inner-a': 1, 'inner-b': [1, 2]}), None))
+    good = frame.marshal(commands.Basic.Ack(delivery_tag=77, multiple=True), 3)
+    inners.append((lambda: frame.unmarshal(good), None))
+    for call, inner_frame in inners:
+        def outers(tz):
+            when = dtm.datetime(2021, 3, 4, 5, 6, 7, tzinfo=tz)
+            out = []
+            if kinds in ('all', 'methods'):
+                out += [commands.Queue.Declare(queue='orders', passive=False, durable=True, arguments={'a-first': 1, 'm-when': when, 'z-last': 'end'}),
+                        commands.Basic.Consume(queue='orders', consumer_tag='ctag', no_ack=True, arguments={'when': when})]
+            if kinds in ('all', 'headers'):
+                out += [header.ContentHeader(0, 11, commands.Basic.Properties(content_type='outer/type', headers={'k': 1, 'when': when}, priority=2, app_id='outer')),
+                        header.ContentHeader(0, 11, commands.Basic.Properties(content_type='outer/type', timestamp=when, app_id='outer'))]
+            return out
+        for k_ in range(len(outers(None))):
+            del captured[:]
+            fr = outers(CallsBack(call))[k_]
+            ev = actions.roundtrip(fr, 5)
+            rec.add('RoundTrip', props, nt=True, label='re-entrant-outer', **ev)
+            got = [c for c in captured if isinstance(c, (bytes, bytearray))]
+            if inner_frame is not None and got and kinds == 'all':
+                ev2 = actions.roundtrip(inner_frame, 9)          # the structure of the event; the bytes are the ones produced INSIDE
+                ev2['out'] = {'r': 'ok', 'b': list(got[0])}
+                ev2['un'], _ = actions.do_unmarshal(bytes(got[0]))
+                ev2['re'] = {'r': 'skip'}
+                ev2['out2'] = {'r': 'ok', 'b': list(got[0])}
+                rec.add('RoundTrip', props, nt=True, label='re-entrant-inner', **ev2)
+    if kinds == 'all':
+        for call, inner_frame in inners[:3]:
+            del captured[:]
+            when = dtm.datetime(2021, 3, 4, 5, 6, 7, tzinfo=CallsBack(call))
+            rec.add('EncodeValue', props, nt=True, label='re-entrant-outer', **actions.encode_value({'a': 1, 'when': when, 'z': [when, 2]}, 'table'))
 
 
 def unrepresentable_strings(ctx, props):
